@@ -1003,7 +1003,6 @@ fn main() {
     }
 
     let quick = ctx.quick();
-    let only = std::env::var("C17_ONLY").ok();
     let lens: Vec<usize> = if quick { vec![1, 2, 3, 255] } else { vec![1, 2, 3, 255, 256, 300] };
     ctx.set_rule(&format!(
         "E-STATE on the real TcpStream<SimTcp> (from_stream + BufDnsStreamHandle), manual polling: BFS over ALL answer sequences of the \
@@ -1026,9 +1025,6 @@ fn main() {
     let mut grid_stats = serde_json::Map::new();
     let mut all_fix = true;
     let mut do_grid = |name: &str, insts: Vec<Inst>, base: &mut u32| -> vcore::BfsStats {
-        if only.as_deref().map(|o| o != name).unwrap_or(false) {
-            return vcore::BfsStats { fixpoint: true, ..Default::default() }; // debugging aid only
-        }
         // instances are explored in slices of 24 to bound the memory of a BFS level
         let mut st = vcore::BfsStats { fixpoint: true, ..Default::default() };
         for chunk in insts.chunks(24) {
@@ -1181,7 +1177,7 @@ fn main() {
         let st = do_grid("cross", insts, &mut base);
         ctx.set("cross_run", json!({"streams": n, "runs_without_matching": free_runs, "keys_without_matching": free_keys, "bfs_states": st.states}));
         eprintln!("[C17] cross-run: streams={n} runs={free_runs} keys={free_keys} bfs_states={} t={:.1}s", st.states, ctx.elapsed_s());
-        if free_keys as u64 != st.states && only.is_none() {
+        if free_keys as u64 != st.states {
             ctx.machinery_failure(&format!("cross-run: matching-free enumeration reached {free_keys} keys, BFS with matching {}", st.states));
         }
     }
